@@ -28,6 +28,7 @@ Inductive role :=
 | RAliasQ                   (* _SetOperation ORDER BY reference to a selected alias: format_quotes(alias, quote_char) *)
 | RQual                     (* a table's ALIAS used as the qualifier of a column (Field / Star namespace): quote_char *)
 | RQAlias (inner : cls)     (* alias of a sub-query built by class [inner] *)
+| RSAlias                   (* alias of a set operation used as a source: format_alias_sql with the incoming kwargs *)
 | RCte.                     (* name of a WITH clause and references to it: rendered bare by every class *)
 
 Inductive atok :=
@@ -438,7 +439,7 @@ Definition qset_toks (kin : kctx) (og0 : origin) (walias subquery pv : bool) (al
          | [] => Ok []
          | _ => os <- rmapM (sitem_toks c og0 selected_aliases) orderbys ;; Ok (T " ORDER BY " :: tjoin "," os) end) ;;
   let body := vparen subquery pv (b ++ List.concat rest ++ ob ++ page_toks_v bc KSetOp l o) in
-  Ok (if walias then falias RAlias og0 body ali (q c) (aq c) (askw c) else body).
+  Ok (if walias then falias RSAlias og0 body ali (q c) (aq c) (askw c) else body).
 
 Definition query_toks (kin : kctx) (og0 : origin) (walias subquery pv : bool) (ali : option string) (x : query)
   : res (list dtok) :=
@@ -527,6 +528,7 @@ Definition exact_tok (v : conv) (t : dtok) : Prop :=
   | AId RAliasQ qu _ _ => qu = v_q v
   | AId RQual qu _ _ => qu = v_q v
   | AId (RQAlias ci) qu _ _ => qu = or_ostr (qalias_quote ci) (v_q v)
+  | AId RSAlias qu _ og => qu = or_ostr (og_aq v og) (v_q v)
   | AId RCte qu _ _ => qu = None
   | AStr qu _ og => qu = og_sq v og
   | AAs kw og => kw = og_as v og
@@ -543,6 +545,7 @@ Definition strict_tok (v : conv) (qa : option string) (t : dtok) : Prop :=
   | AId RAliasQ qu _ _ => qu = or_ostr (v_aq v) (v_q v)
   | AId RQual qu _ _ => qu = or_ostr (v_aq v) (v_q v)
   | AId (RQAlias _) qu _ _ => qu = or_ostr qa (v_q v)
+  | AId RSAlias qu _ _ => qu = or_ostr qa (v_q v)
   | AId RCte qu _ _ => qu = v_q v
   | AStr qu _ _ => qu = v_sq v
   | AAs kw _ => kw = v_as v
@@ -559,6 +562,7 @@ Definition strict_tokb (v : conv) (qa : option string) (t : dtok) : bool :=
   | AId RAliasQ qu _ _ => ostr_eqb qu (or_ostr (v_aq v) (v_q v))
   | AId RQual qu _ _ => ostr_eqb qu (or_ostr (v_aq v) (v_q v))
   | AId (RQAlias _) qu _ _ => ostr_eqb qu (or_ostr qa (v_q v))
+  | AId RSAlias qu _ _ => ostr_eqb qu (or_ostr qa (v_q v))
   | AId RCte qu _ _ => ostr_eqb qu (v_q v)
   | AStr qu _ _ => ostr_eqb qu (v_sq v)
   | AAs kw _ => Bool.eqb kw (v_as v)
@@ -572,6 +576,7 @@ Definition benign_tok (v : conv) (qa : option string) (t : dtok) : bool :=
   | AId RAliasQ _ _ _ => ostr_eqb (v_q v) (or_ostr (v_aq v) (v_q v))
   | AId RQual _ _ _ => ostr_eqb (v_q v) (or_ostr (v_aq v) (v_q v))
   | AId (RQAlias ci) _ _ _ => ostr_eqb (or_ostr (qalias_quote ci) (v_q v)) (or_ostr qa (v_q v))
+  | AId RSAlias _ _ og => ostr_eqb (or_ostr (og_aq v og) (v_q v)) (or_ostr qa (v_q v))
   | AId RCte _ _ _ => ostr_eqb None (v_q v)
   | AStr _ _ og => ostr_eqb (og_sq v og) (v_sq v)
   | AAs _ og => Bool.eqb (og_as v og) (v_as v)
@@ -581,7 +586,7 @@ Definition benign_tok (v : conv) (qa : option string) (t : dtok) : bool :=
 (* ---------------- erasing quotes and documented vendor differences ---------------- *)
 Inductive erole := EIdent | EAlias | EQAlias | ECte.
 Definition erole_of (r : role) : erole :=
-  match r with RIdent => EIdent | RAlias | RAliasC | RAliasQ | RQual => EAlias | RQAlias _ => EQAlias | RCte => ECte end.
+  match r with RIdent => EIdent | RAlias | RAliasC | RAliasQ | RQual => EAlias | RQAlias _ | RSAlias => EQAlias | RCte => ECte end.
 Inductive etok := EText (s : string) | EId (r : erole) (name : string) | EStr (raw : string) | EBool (b : bool).
 Definition erase1 (t : dtok) : list etok :=
   if fst t then [] else
